@@ -31,6 +31,8 @@ const (
 )
 
 type LValue struct {
+	SliceT Term // for elements addressed through a slice value: the slice and the relative index
+	RelIdx Term
 	Kind  int
 	Heap  string
 	Sort  string // sort of the heap's range (root value)
@@ -149,6 +151,7 @@ type FnCtx struct {
 	funUsed  map[string]string // uninterpreted function decls
 	trusted  map[string]bool   // assumed contracts / observers used
 	names    map[string][]ssa.Value // source-level names -> values (DebugRef)
+	addrNames map[string][]ssa.Value // address-taken variables: name -> its address
 	houdini  []*candidate
 	retVals  []*retSite
 	strConst map[string]string
@@ -164,6 +167,8 @@ type FnCtx struct {
 	assertBlk map[int]*ssa.BasicBlock
 	reachMemo map[[2]int]bool
 	heapTok   map[string]Term
+	assertAct map[int]string // assumption index -> name of the invariant/lemma/precondition it belongs to
+	atFns     map[string]string
 	virt      map[*ssa.Alloc][]*Val
 	virtAddr  map[*ssa.IndexAddr]virtCell
 }
@@ -222,6 +227,8 @@ func (c *FnCtx) reset() {
 	c.assertBlk = nil
 	c.reachMemo = nil
 	c.heapTok = nil
+	c.assertAct = nil
+	c.atFns = nil
 	c.virt = nil
 	c.virtAddr = map[*ssa.IndexAddr]virtCell{}
 }
@@ -230,7 +237,27 @@ func (c *FnCtx) fresh(prefix, srt string) Term {
 	c.nfresh++
 	n := fmt.Sprintf("%s!%d", sym(prefix), c.nfresh)
 	c.declare(n, fmt.Sprintf("(declare-const %s %s)", n, srt))
+	if strings.HasPrefix(prefix, "h.") {
+		c.heapWF(n, srt)
+	}
 	return n
+}
+
+// heapWF: heap well-typedness, limited to the one fact whose absence makes
+// contracts over slices inconsistent: every slice stored in a heap cell has a
+// non-negative length. Triggered only by s_len of a cell read.
+func (c *FnCtx) heapWF(hsym, srt string) {
+	return // slices are well-formed by construction of the Slice sort (prelude axiom 0 <= s_len)
+	var ax string
+	switch {
+	case strings.HasSuffix(srt, "(Array Int (Array Int Slice))"):
+		ax = fmt.Sprintf("(forall ((r Int) (i Int)) (! (<= 0 (s_len (select (select %s r) i))) :pattern ((s_len (select (select %s r) i)))))", hsym, hsym)
+	case srt == "(Array Int Slice)":
+		ax = fmt.Sprintf("(forall ((r Int)) (! (<= 0 (s_len (select %s r))) :pattern ((s_len (select %s r)))))", hsym, hsym)
+	default:
+		return
+	}
+	c.asserts = append(c.asserts, ax)
 }
 
 func (c *FnCtx) assume(t Term) {
@@ -313,7 +340,10 @@ func (c *FnCtx) heapGet(st *State, name, srt string) Term {
 		return t
 	}
 	init := c.heapSym(name) + "@0"
-	c.declare(init, fmt.Sprintf("(declare-const %s %s)", init, srt))
+	if !c.declared[init] {
+		c.declare(init, fmt.Sprintf("(declare-const %s %s)", init, srt))
+		c.heapWF(init, srt)
+	}
 	return init
 }
 
@@ -392,6 +422,9 @@ func (c *FnCtx) lvRoot(st *State, lv *LValue) Term {
 	case lvField, lvPtr:
 		return app("select", c.heapGet(st, lv.Heap, lv.Sort), lv.Base)
 	case lvElem:
+		if lv.SliceT != "" {
+			return c.at(c.heapGet(st, lv.Heap, lv.Sort), lv.Sort, lv.SliceT, lv.RelIdx)
+		}
 		return app("select", app("select", c.heapGet(st, lv.Heap, lv.Sort), lv.Base), lv.Idx)
 	case lvCell:
 		if t, ok := st.cells[lv.Cell]; ok {
@@ -1593,7 +1626,7 @@ func (c *FnCtx) doIndexAddr(st *State, x *ssa.IndexAddr) {
 	case *types.Slice:
 		hn, hs := c.elemHeap(u.Elem())
 		c.safety(st, x, "index", and(app("<=", "0", iv.S), app("<", iv.S, app("s_len", base.S))))
-		lv := &LValue{Kind: lvElem, Heap: hn, Sort: hs, Base: app("s_arr", base.S), Idx: app("+", app("s_off", base.S), iv.S), RootT: u.Elem(), T: u.Elem()}
+		lv := &LValue{Kind: lvElem, Heap: hn, Sort: hs, Base: app("s_arr", base.S), Idx: app("+", app("s_off", base.S), iv.S), RootT: u.Elem(), T: u.Elem(), SliceT: base.S, RelIdx: iv.S}
 		c.regs[x] = &Val{T: x.Type(), LV: lv}
 	case *types.Pointer: // pointer to array
 		at := u.Elem().Underlying().(*types.Array)
@@ -2035,8 +2068,22 @@ func (c *FnCtx) havocAll(st *State) {
 
 func (c *FnCtx) collectNames() {
 	c.names = map[string][]ssa.Value{}
+	c.addrNames = map[string][]ssa.Value{}
 	for _, b := range c.fn.Blocks {
 		for _, ins := range b.Instrs {
+			if d, ok := ins.(*ssa.DebugRef); ok && d.IsAddr {
+				if obj := d.Object(); obj != nil {
+					dup := false
+					for _, v := range c.addrNames[obj.Name()] {
+						if v == d.X {
+							dup = true
+						}
+					}
+					if !dup {
+						c.addrNames[obj.Name()] = append(c.addrNames[obj.Name()], d.X)
+					}
+				}
+			}
 			if d, ok := ins.(*ssa.DebugRef); ok && !d.IsAddr {
 				if obj := d.Object(); obj != nil {
 					n := obj.Name()
@@ -2053,4 +2100,40 @@ func (c *FnCtx) collectNames() {
 			}
 		}
 	}
+}
+
+// assumeNamed records an assumption that belongs to a named invariant, lemma or
+// precondition; an obligation that lists what it `uses` gets only those.
+func (c *FnCtx) assumeNamed(name string, t Term) {
+	if t == "true" || t == "" {
+		return
+	}
+	c.act(name)
+	before := len(c.asserts)
+	c.assume(t)
+	if len(c.asserts) > before {
+		if c.assertAct == nil {
+			c.assertAct = map[int]string{}
+		}
+		c.assertAct[len(c.asserts)-1] = name
+	}
+}
+
+// at(h, s, i) is the i-th element of slice s in element heap h, written with a
+// function symbol per heap term so that quantifier triggers over slice elements
+// contain no index arithmetic:  at.h(s, i) = h[s_arr s][s_off s + i].
+func (c *FnCtx) at(heapTerm Term, heapSort string, s Term, i Term) Term {
+	if c.atFns == nil {
+		c.atFns = map[string]string{}
+	}
+	f, ok := c.atFns[heapTerm]
+	if !ok {
+		f = fmt.Sprintf("at.%d", len(c.atFns))
+		c.atFns[heapTerm] = f
+		// heapSort = (Array Int (Array Int ELEM))
+		elem := strings.TrimSuffix(strings.TrimPrefix(heapSort, "(Array Int (Array Int "), "))")
+		c.declare(f, fmt.Sprintf("(declare-fun %s (Slice Int) %s)", f, elem))
+		c.asserts = append(c.asserts, fmt.Sprintf("(forall ((s Slice) (i Int)) (! (= (%s s i) (select (select %s (s_arr s)) (+ (s_off s) i))) :pattern ((%s s i))))", f, heapTerm, f))
+	}
+	return app(f, s, i)
 }
